@@ -335,7 +335,7 @@ pub fn generate(repo: &PathBuf) -> Result<String, String> {
         return Err(format!("{rel_utils}:fetch_from_data_map: cannot tell whether every data-map entry gets a download task"));
     };
 
-    let mut s = header(&format!("{rel_se}, {rel_utils}, {rel_chunks}, {rel_data}, {rel_public}"));
+    let mut s = header(&format!("{rel_se}, {rel_utils}, {rel_chunks}, {rel_data}, {rel_public}, ant-networking/src/driver.rs"));
     s.push_str("namespace SafeNet.Gen.SelfEnc\n");
     s.push_str(&format!("/-- `pack_data_map`: the loop returns when `{fits_doc}` -/\n"));
     s.push_str(&format!("def packFits (max size : Nat) : Bool := decide ({fits_expr})\n"));
@@ -356,6 +356,12 @@ pub fn generate(repo: &PathBuf) -> Result<String, String> {
     s.push_str(&format!("def dataCostEncryptsCallerBytes : Bool := {}\n", lean_bool(cost)));
     s.push_str("/-- `fetch_from_data_map` pushes one download task for every entry of `data_map.infos()` (its loop body has no `continue` / conditional skip) -/\n");
     s.push_str(&format!("def fetchRequestsEveryInfo : Bool := {}\n", lean_bool(every_info)));
+    // ---- the size of record a node stores (ant-networking/src/driver.rs): `max_value_bytes: MAX_PACKET_SIZE`
+    let rel_driver = "ant-networking/src/driver.rs";
+    let driver = parse_file(&repo.join(rel_driver))?;
+    let max_packet = const_value(&driver, "MAX_PACKET_SIZE").map_err(|e| format!("{rel_driver}: {e}"))?;
+    s.push_str("/-- `ant_networking::MAX_PACKET_SIZE`: the largest record value a node's store accepts (`max_value_bytes`) -/\n");
+    s.push_str(&format!("def maxPacketSize : Nat := {max_packet}\n"));
     s.push_str("end SafeNet.Gen.SelfEnc\n");
     Ok(s)
 }
